@@ -34,3 +34,12 @@ def forked(fn, *args):
     if not chunks:
         return ("exc", "child died with status %s and no output" % status)
     return pickle.loads(b"".join(chunks))
+
+
+def call_forked(args):
+    """(fn, item) -> fn(item) evaluated in a forked child of the (pristine) worker."""
+    fn, item = args
+    status, res = forked(fn, item)
+    if status != "ok":
+        raise RuntimeError("%s(%r) failed in the child: %s" % (getattr(fn, "__name__", fn), item, res))
+    return res
